@@ -174,7 +174,7 @@ func VerifC14_Walk() {
 	n := vLen(1, vParam("maxrecords", 2))
 	recs := vRecords(n, vBool())
 	b := &refSDRRepo{records: recs, reservation: vU16(), lastAdd: vU32(), lastErase: vU32()}
-	got, err := walkSDRs(context.Background(), b)
+	got, err := RetrieveSDRRepository(context.Background(), b)
 	vAssert(err == nil, "c14-walk-succeeds")
 	if err == nil {
 		vCheckRepo(got, recs)
@@ -202,6 +202,82 @@ func VerifC14_Modified() {
 	vAssert(err == nil, "c14-retrieval-succeeds-after-a-modification")
 	if err == nil {
 		if b.changed {
+			vCheckRepo(got, recs2)
+			vReached("?modified")
+		} else {
+			vCheckRepo(got, recs1)
+			vReached("?unmodified")
+		}
+	}
+	vReached("end")
+}
+
+// vSessionRepoBMC serves the SDR repository commands over a real established session:
+// it opens each datagram the way a BMC does (reference decryption), dispatches on
+// NetFn/command and answers authenticated and encrypted.
+type vSessionRepoBMC struct {
+	vs   *vSession
+	repo *refSDRRepo
+	ivs  [][]byte
+	n    int
+}
+
+func (b *vSessionRepoBMC) reply(attempt int, req []byte) ([]byte, error) {
+	_, macLen := refIntegrityHash(b.vs.integ)
+	l := refLE16(req[14:16])
+	conf := req[16 : 16+l]
+	pt := refAESCBC(false, b.vs.k2[:16], conf[:16], conf[16:])
+	p := int(pt[len(pt)-1])
+	m := refParseMsg(pt[:len(pt)-1-p])
+	_ = macLen
+	var data []byte
+	switch {
+	case m.netFn == 0x0a && m.cmd == 0x20: // Get SDR Repository Info
+		data = []byte{0x00, 0x51, byte(len(b.repo.records)), 0, 0xff, 0xff}
+		data = append(data, refPutLE32(b.repo.lastAdd)...)
+		data = append(data, refPutLE32(b.repo.lastErase)...)
+		data = append(data, 0x02)
+	case m.netFn == 0x0a && m.cmd == 0x22: // Reserve SDR Repository
+		b.repo.reservation++
+		data = []byte{0x00, byte(b.repo.reservation), byte(b.repo.reservation >> 8)}
+	case m.netFn == 0x0a && m.cmd == 0x23: // Get SDR
+		cmd := &ipmi.GetSDRCmd{Req: ipmi.GetSDRReq{ReservationID: ipmi.ReservationID(refLE16(m.data[0:2])), RecordID: ipmi.RecordID(refLE16(m.data[2:4])), Offset: m.data[4], Length: m.data[5]}}
+		cc, _ := b.repo.SendCommand(context.Background(), cmd)
+		data = []byte{byte(cc)}
+		if cc == 0 {
+			data = append(data, byte(cmd.Rsp.Next), byte(cmd.Rsp.Next>>8))
+			data = append(data, cmd.Rsp.Payload...)
+		}
+	default:
+		return nil, vErrLost
+	}
+	msg := refBuildMsg(0x81, m.netFn|1, 0, 0x20, 1, 0, m.cmd, data)
+	iv := b.ivs[b.n%len(b.ivs)]
+	b.n++
+	return refSessionPacket(b.vs.sess.LocalID, uint32(b.n), b.vs.integ, b.vs.k1, b.vs.k2, iv, msg), nil
+}
+
+// C14 (through a real session): RetrieveSDRRepository over an established V2Session
+// against the reference repository device; the repository is replaced before the k-th
+// Get SDR request with only a timestamp advancing (the reservation stays valid), so the
+// modification is visible only through the before/after repository-info comparison.
+func VerifC14_OverSession() {
+	vs := vNewSession(1, 1)
+	vAssume(vs.sess.AuthenticatedSequenceNumbers.Inbound < 0xffffff00)
+	recs1 := vRecords(1, false)
+	recs2 := vRecords(1, false)
+	repo := &refSDRRepo{records: recs1, reservation: vU16(), lastAdd: vU32(), lastErase: vU32(), newRecords: recs2}
+	vAssume(repo.lastAdd < 0xfffffff0)
+	vAssume(repo.lastErase < 0xfffffff0)
+	vAssume(repo.reservation < 0xff00)
+	repo.bumpErase = vBool()
+	repo.changeAt = vChoice(4) // 0: never; 1..3: before that Get SDR request
+	bmc := &vSessionRepoBMC{vs: vs, repo: repo, ivs: [][]byte{vBytes(16), vBytes(16), vBytes(16)}}
+	vs.ft.reply = bmc.reply
+	got, err := RetrieveSDRRepository(context.Background(), vs.sess)
+	vAssert(err == nil, "c14-retrieval-over-a-session-succeeds")
+	if err == nil {
+		if repo.changed {
 			vCheckRepo(got, recs2)
 			vReached("?modified")
 		} else {
